@@ -337,6 +337,12 @@ def arg_seq(a):
     return None
 
 
+def toy_sig_ok(rule, a):
+    """`primitive_deriv[rule]` declares a Term argument for assume (the harness passes a term exactly
+    for an int >= 0) and none for implies_elim."""
+    return is_nat(a) if rule == "assume" else a is None
+
+
 def toy_prim(rule, a, ps):
     if rule == "assume":
         if isinstance(a, int) and not ps:
@@ -441,7 +447,15 @@ def toy_thm(thms, name):
 
 
 def type_ok(s):
-    return s[1] < 100 and all(h < 100 for h in s[0])
+    ok = lambda c: c < 100 or c >= 200
+    return ok(s[1]) and all(ok(h) for h in s[0])
+
+
+def toy_var(a):
+    """`variable` rule: arg k -> ⊢ _VAR v_k, coded 200+k."""
+    if not is_nat(a):
+        raise ToyErr1()
+    return mk([], 200 + a)
 
 
 # =============================================================================================
@@ -499,12 +513,18 @@ class Env:
 
     # ---- codes <-> holpy objects
     def prop(self, n):
+        if n >= 200:
+            from kernel.term import Var
+            from kernel.type import TFun
+            return self.Const("_VAR", TFun(self.BoolType, self.BoolType))(Var("v%d" % (n - 200), self.BoolType))
         return self.Const("p%d" % n, self.BoolType) if n < 100 else self.Const("q%d" % n, self.TVar("a"))
 
     def thm(self, s):
         return self.Thm(self.prop(s[1]), tuple(self.prop(h) for h in sorted(set(s[0]))))
 
     def code(self, t):
+        if t.is_comb() and t.fun.is_const() and t.fun.name == "_VAR" and t.arg.is_var() and re.fullmatch(r"v\d+", t.arg.name):
+            return 200 + int(t.arg.name[1:])
         if not (t.is_const() and re.fullmatch(r"[pq]\d+", t.name)):
             raise ValueError("not a toy proposition: %r" % (t,))
         return int(t.name[1:])
@@ -517,6 +537,8 @@ class Env:
     def arg(self, rule, a):
         if rule == "assume" and isinstance(a, int) and a >= 0:
             return self.prop(a)
+        if rule == "variable" and is_nat(a):
+            return ("v%d" % a, self.BoolType)
         return to_tuple(a)
 
     def arg_back(self, a):
@@ -531,22 +553,46 @@ class Env:
             pi.subproof.items = [self.item(s) for s in sub]
         return pi
 
-    def proof(self, items):
-        prf = self.Proof()
-        prf.items = [self.item(it) for it in items]
-        return prf
+    def proof(self, items, graph=None):
+        """Proof object for a tree of item specs, or -- when `graph` is given -- the object graph it
+        describes: {"items": {name: [id, rule, args, prevs, th, proof name|None]},
+        "proofs": {name: [item names]}, "root": proof name}; one Python object per name, so a name
+        used twice is ONE ProofItem / Proof object sitting at several places (cycles allowed)."""
+        if graph is None:
+            prf = self.Proof()
+            prf.items = [self.item(it) for it in items]
+            return prf
+        iobj, pobj = {}, {}
+
+        def mk_proof(pn):
+            if pn not in pobj:
+                pobj[pn] = self.Proof()
+                pobj[pn].items = [mk_item(n) for n in graph["proofs"][pn]]
+            return pobj[pn]
+
+        def mk_item(n):
+            if n not in iobj:
+                id_, rule, args, prevs, th, sub = graph["items"][n]
+                iobj[n] = self.ProofItem(tuple(id_), rule, args=self.arg(rule, args), prevs=[tuple(q) for q in prevs],
+                                         th=None if th is None else self.thm(mk(th[0], th[1])))
+                if sub is not None:
+                    iobj[n].subproof = mk_proof(sub)
+            return iobj[n]
+        return mk_proof(graph["root"])
 
     def fresh_theory(self, thms):
         self.theory.thy = self.theory.EmptyTheory()
         for name, s in thms:
             self.theory.thy.add_theorem(name, self.thm(mk(s[0], s[1])))
 
-    def tree(self, prf, pre=()):
+    def tree(self, prf, pre=(), depth=0):
+        """Statements left in the proof object at the positions the checker walks (top level and the
+        contents of `subproof` blocks); other attached subproofs are not part of the outcome."""
         out = []
         for k, it in enumerate(prf.items):
             out.append((pre + (k,), self.dec(it.th)))
-            if it.subproof is not None:
-                out += self.tree(it.subproof, pre + (k,))
+            if it.subproof is not None and it.rule == "subproof" and depth < 12:
+                out += self.tree(it.subproof, pre + (k,), depth + 1)
         return out
 
     # ---- error classes
@@ -578,7 +624,7 @@ class Env:
         """case = {cfg: [no_gaps, compute_only, level], thms: [[name, seq]…], items: […]} -> canonical result."""
         ng, co, lvl = case["cfg"]
         self.fresh_theory(case["thms"])
-        prf = self.proof(case["items"])
+        prf = self.proof(case["items"], case.get("graph"))
         rpt = self.report.ProofReport()
         self.log = []
         try:
@@ -723,13 +769,14 @@ def ref_can_prove(r, t):
     return r[1] == t[1] and set(r[0]) <= set(t[0])
 
 
-def ref_check(items, thms, no_gaps, level):
+def ref_check(items, thms, no_gaps, level, keep="stated"):
     """Replay in document order. Citations are positions (that is how the implementation resolves
     them); identifiers carried by the items play no role.  Raises Flag when the proof is not
     justified; returns (final sequent or None, gaps)."""
     verified = {}
     present = set()
     gaps = []
+    computed = {}
 
     def why(cur, c):
         c = tuple(c)
@@ -773,6 +820,11 @@ def ref_check(items, thms, no_gaps, level):
                 comp = toy_thm(thms, args)
             except Exception:
                 raise Flag("rule-failed", "theorem %r" % (args,))
+        elif rule == "variable":
+            try:
+                comp = toy_var(args)
+            except Exception:
+                raise Flag("rule-failed", "variable %r" % (args,))
         elif rule == "subproof":
             if not sub:
                 raise Flag("rule-failed", "empty block at %s" % (pos,))
@@ -793,6 +845,8 @@ def ref_check(items, thms, no_gaps, level):
                 raise Flag("rule-failed", "unknown rule %s" % rule)
             try:
                 if k[0] == "prim":
+                    if not toy_sig_ok(rule, args):
+                        raise Flag("rule-failed", "%s at %s: argument of the wrong kind" % (rule, pos))
                     comp = toy_prim(rule, args, prem)
                 elif k[1] <= level:
                     comp = toy_eval(rule, args, prem)
@@ -816,39 +870,47 @@ def ref_check(items, thms, no_gaps, level):
             st = comp
         elif not ref_can_prove(comp, st):
             raise Flag("stated-stronger-than-computed", "item at %s states %s, rule yields %s" % (pos, st, comp))
-        if not type_ok(st):
+        if not type_ok(st if keep == "stated" else comp):
             raise Flag("ill-typed-statement", "item at %s" % (pos,))
-        verified[pos] = st
+        # what later lines may use: the stated sequent (what the checker stores today) or, in the
+        # second replay mode, the computed one -- both are justified
+        verified[pos] = st if keep == "stated" else comp
+        computed[pos] = comp
 
     block(items, ())
     if not items:
         raise Flag("empty-proof")
-    return verified.get((len(items) - 1,)), gaps
+    return verified.get((len(items) - 1,)), gaps, computed.get((len(items) - 1,))
 
 
 def judge_check(ctx, case, res):
-    """Property oracle for one accepted run of check_proof.  Returns True when a violation was filed."""
+    """Property oracle for one accepted run of check_proof.  Returns True when a violation was filed.
+    The replay is done twice: later lines use the stated sequents of earlier ones (what the checker
+    stores today) or the computed ones; an accepted run is fine when one replay justifies it (so a
+    checker that returned / handed on the stronger computed sequents would not be reported)."""
     ng, co, lvl = case["cfg"]
     if res[0] != "ok" or co:
         return False
-    try:
-        final, gaps = ref_check(case["items"], case["thms"], ng, lvl)
-    except Flag as f:
-        ctx.violation("accepted:" + f.cls,
-                      "check_proof accepted a proof that is not justified (%s: %s)" % (f.cls, f.detail),
-                      {"kind": "check", "case": case, "impl": res, "reason": f.cls})
-        return True
-    bad = None
-    if res[1] is not None and (final is None or not same_seq(final, res[1])):
-        bad = ("result-not-verified", "returned %s, replay gives %s" % (res[1], final))
-    elif ng and res[3]:
-        bad = ("gap-tolerated-with-no-gaps", "gaps reported with no_gaps")
-    elif sorted(gaps) != sorted(res[3]):
-        bad = ("gaps-misreported", "reported %s, placeholders present %s" % (res[3], gaps))
-    if bad:
-        ctx.violation("accepted:" + bad[0], "check_proof: %s (%s)" % bad, {"kind": "check", "case": case, "impl": res, "reason": bad[0]})
-        return True
-    return False
+    first = None
+    for keep in ("stated", "computed"):
+        bad = None
+        try:
+            final, gaps, final_comp = ref_check(case["items"], case["thms"], ng, lvl, keep=keep)
+            if res[1] is not None and not any(x is not None and ref_can_prove(x, res[1]) for x in (final, final_comp)):
+                bad = ("result-not-verified", "returned %s, replay gives %s (computed %s)" % (res[1], final, final_comp))
+            elif ng and res[3]:
+                bad = ("gap-tolerated-with-no-gaps", "gaps reported with no_gaps")
+            elif sorted(gaps) != sorted(res[3]):
+                bad = ("gaps-misreported", "reported %s, placeholders present %s" % (res[3], gaps))
+        except Flag as f:
+            bad = (f.cls, f.detail)
+        if bad is None:
+            return False
+        first = first or bad
+    ctx.violation("accepted:" + first[0],
+                  "check_proof accepted a proof that is not justified (%s: %s)" % first,
+                  {"kind": "check", "case": case, "impl": res, "reason": first[0]})
+    return True
 
 
 def same_seq(a, b):
@@ -876,7 +938,7 @@ def judge_extend(ctx, env, case, res):
         if is_in and items is not None and not listed:
             reason = None
             try:
-                final, gaps = ref_check(items, thms, True, 0)
+                final, gaps, _ = ref_check(items, thms, True, 0)
                 if gaps:
                     reason = "has-gaps"
                 elif final is None or not ref_can_prove(final, st):
@@ -909,7 +971,7 @@ def full(c):
     return [list(FULLH), c]
 
 
-CITE_C = [[-1], [0], [1], [2], [0, 0]]
+CITE_C = [[-1], [0], [1], [2], [0, 0], []]
 CITE_MENUS = [[]] + [[c] for c in CITE_C] + [[c, d] for c in CITE_C for d in CITE_C]
 
 
@@ -939,7 +1001,7 @@ def gen_exh_nesting():
     each of the inner items and b carries <= 1 citation from a menu that contains the legal ones and
     forward / enclosing / into-the-closed-block / missing / negative ones.  The inner items carry
     their positions as ids, or (second variant) ids whose last component is one too large."""
-    C = [None, [0], [1], [2], [1, 0], [1, 1], [1, 2], [0, 0], [-1], [1, -1]]
+    C = [None, [0], [1], [2], [1, 0], [1, 1], [1, 2], [0, 0], [-1], [1, -1], []]
     pv = lambda c: [] if c is None else [list(c)]
     for shape in ("subproof", "expansion", "expansion-stated"):
         for iv in (0, 1):
@@ -1087,8 +1149,8 @@ class RandGen:
         for k in range(n):
             pos = pre + (k,)
             vis = [p for p in known if visible(pos, p)]
-            kind = r.choices(["ax", "assume", "id", "weaken", "cut", "join", "sorry", "empty", "theorem", "subproof", "exp", "bad"],
-                             [14, 6, 12, 8, 8, 12, 7, 4, 5, 8 if depth < 2 and budget[0] > 2 else 0, 9 if depth < 3 and budget[0] > 2 else 0, 2])[0]
+            kind = r.choices(["ax", "assume", "id", "weaken", "cut", "join", "sorry", "empty", "theorem", "subproof", "exp", "bad", "var"],
+                             [14, 6, 12, 8, 8, 12, 7, 4, 5, 8 if depth < 2 and budget[0] > 2 else 0, 9 if depth < 3 and budget[0] > 2 else 0, 2, 3])[0]
             budget[0] -= 1
             comp, sub, prevs, args, rule = None, None, [], None, None
             try:
@@ -1120,6 +1182,10 @@ class RandGen:
                     rule, comp = "sorry", s
                 elif kind == "empty":
                     rule = ""
+                elif kind == "var":
+                    k = r.choice([0, 1, 2, None, -1]) if r.random() < 0.3 else r.randrange(3)
+                    rule, args = "variable", k
+                    comp = mk([], 200 + k) if is_nat(k) else None
                 elif kind == "theorem":
                     name = r.choice(["verif_t0", "verif_t1", "verif_t2", "verif_missing"])
                     rule, args = "theorem", name
@@ -1277,6 +1343,144 @@ class RandGen:
         return {"cfg": cfg, "thms": thms, "items": items}, tags
 
 
+# ---------------------------------------------------------------------------------------------
+# proof objects that are not trees: one ProofItem / Proof object at several places, and twins
+# ---------------------------------------------------------------------------------------------
+def to_graph(items):
+    """Tree of item specs -> graph with one name per item / proof."""
+    g = {"items": {}, "proofs": {}, "root": None}
+    cnt = [0, 0]
+
+    def proof(its):
+        pn = "p%d" % cnt[1]
+        cnt[1] += 1
+        g["proofs"][pn] = None
+        names = []
+        for it in its:
+            n = "i%d" % cnt[0]
+            cnt[0] += 1
+            g["items"][n] = [it[0], it[1], it[2], it[3], it[4], None if it[5] is None else proof(it[5])]
+            names.append(n)
+        g["proofs"][pn] = names
+        return pn
+    g["root"] = proof(items)
+    return g
+
+
+def unfold(g, max_items=400):
+    """The tree of values a graph describes; along a cycle the unfolding stops (subproof None) at a
+    depth the checker cannot walk to: it refuses an object at its second walked place.  None if huge."""
+    limit = len(g["items"]) + 2
+    n = [0]
+
+    def proof(pn, d):
+        return [item(x, d) for x in g["proofs"][pn]]
+
+    def item(name, d):
+        n[0] += 1
+        if n[0] > max_items:
+            raise OverflowError
+        id_, rule, args, prevs, th, sub = g["items"][name]
+        return [list(id_), rule, args, [list(q) for q in prevs], th, None if sub is None or d >= limit else proof(sub, d + 1)]
+    try:
+        return proof(g["root"], 0)
+    except OverflowError:
+        return None
+
+
+def graph_case(g, cfg=(False, False, 0), thms=()):
+    items = unfold(g)
+    if items is None:
+        return None
+    return {"cfg": list(cfg), "thms": [list(t) for t in thms], "items": items, "graph": g}
+
+
+def gen_shared_directed():
+    """A block, a filler line and an item X that sits inside the block AND at top level (one object),
+    or whose verbatim copy does (a twin); X carries the id of one of its places and cites the block,
+    the filler, itself ...; both orders; also one Proof object serving two blocks, a block and an
+    unwalked attachment, or the root itself (a cycle)."""
+    for xid in ([2], [0, 0], [1], [0]):
+        for cite in ([], [[0]], [[1]], [[0, 0]], [[]], [[2]]):
+            for stated in (True, False):
+                for twin in (False, True):
+                    for layout in range(5):
+                        X = [xid, "verif_join", 12, cite, full(12) if stated else None, None]
+                        blk = [[0], "subproof", None, [], full(12), "pb"]
+                        fil = [[1], "verif_join", 11, [[0]], None, None]
+                        it = {"X": X, "fil": fil}
+                        if twin:
+                            it["X2"] = [list(xid), "verif_join", 12, [list(c) for c in cite], full(12) if stated else None, None]
+                        x2 = "X2" if twin else "X"
+                        Y = [[0, 0], "verif_ax", [[], 1], [], None, None]
+                        it["Y"] = Y
+                        if layout == 0:
+                            root, pb = ["blk", "fil", x2], ["X"]
+                        elif layout == 1:
+                            blk, root, pb = [[1], "subproof", None, [], full(12), "pb"], [x2, "blk"], ["X"]
+                        elif layout == 2:
+                            root, pb = ["blk", x2], ["X"]
+                        elif layout == 3:
+                            root, pb = ["blk", "fil", x2], ["Y", "X"]
+                        else:
+                            root, pb = ["blk", "fil", "fil", x2], ["X"]
+                        it["blk"] = blk
+                        g = {"items": it, "proofs": {"root": root, "pb": pb}, "root": "root"}
+                        for ng in (True,):
+                            c = graph_case(g, (ng, False, 0))
+                            if c:
+                                yield c
+    # one Proof object in two blocks / in a block and an unwalked attachment / as its own block
+    for ids in ([[0, 0], [0, 1]], [[1, 0], [1, 1]]):
+        for second in ("subproof", "verif_ax"):
+            for c1 in ([], [[0, 0]], [[1, 0]], [[0]]):
+                it = {"a": [ids[0], "verif_ax", [[], 1], [], None, None],
+                      "b": [ids[1], "verif_join", 12, c1, full(12), None],
+                      "B0": [[0], "subproof", None, [], full(12), "P"],
+                      "B1": [[1], second, None if second == "subproof" else [[], 1], [], full(12) if second == "subproof" else None, "P"]}
+                g = {"items": it, "proofs": {"root": ["B0", "B1"], "P": ["a", "b"]}, "root": "root"}
+                yield graph_case(g, (True, False, 0))
+    for rule in ("subproof", "verif_ax"):
+        it = {"B": [[0], rule, None if rule == "subproof" else [[], 1], [], full(12) if rule == "subproof" else None, "root"],
+              "t": [[1], "verif_join", 12, [[0]], None, None]}
+        yield graph_case({"items": it, "proofs": {"root": ["B", "t"]}, "root": "root"}, (True, False, 0))
+
+
+def gen_shared_random(rng, n):
+    """Random proofs (RandGen) turned into graphs, then 1-3 times: put an existing item object into
+    a second slot, let an item's subproof be another item's Proof object, or replace a slot by a
+    verbatim copy of another item (a twin with a foreign id)."""
+    g0 = RandGen(rng)
+    out = []
+    while len(out) < n:
+        case, _ = g0.case()
+        g = to_graph(case["items"])
+        slots = [(pn, k) for pn, names in g["proofs"].items() for k in range(len(names))]
+        if len(slots) < 2:
+            continue
+        for _ in range(rng.choice([1, 1, 2, 3])):
+            op = rng.random()
+            (p1, k1), (p2, k2) = rng.sample(slots, 2)
+            n1 = g["proofs"][p1][k1]
+            if op < 0.45:
+                g["proofs"][p2][k2] = n1
+            elif op < 0.7:
+                withsub = [x for x, v in g["items"].items() if v[5] is not None]
+                if withsub:
+                    g["items"][g["proofs"][p2][k2]][5] = g["items"][rng.choice(withsub)][5]
+                    if g["items"][g["proofs"][p2][k2]][1] not in ("subproof",) and rng.random() < 0.5:
+                        g["items"][g["proofs"][p2][k2]][1] = "subproof"
+                        g["items"][g["proofs"][p2][k2]][3] = []
+            else:
+                tw = "t%d" % len(g["items"])
+                g["items"][tw] = json.loads(json.dumps(g["items"][n1]))
+                g["proofs"][p2][k2] = tw
+        c = graph_case(g, case["cfg"], case["thms"])
+        if c is not None:
+            out.append(c)
+    return out
+
+
 def gen_extend_pool(rng, n):
     """Pool of (stated theorem, proof) material: proofs with known conclusions (clean, with a gap,
     ill-founded, concluding something else)."""
@@ -1321,7 +1525,9 @@ def stream_check(ctx, env, cases, label, oracle=True):
         filed = judge_check(ctx, case, res) if oracle else False
         if out is not None:
             m = parse_check(out[idx], case["cfg"][2])
-            if not same_result(m, res):
+            if m[0] == "err" and res[0] == "err" and m[1] != res[1]:
+                ctx.count("refusal-message-class-differs(not compared)")
+            if not same_result(m, res, case):
                 ndis += 1
                 if ndis <= 3:
                     ctx.broken("correspondence:c02:%s" % label, "case=%s impl=%s model=%s" % (json.dumps(case), res, m))
@@ -1334,15 +1540,38 @@ def stream_check(ctx, env, cases, label, oracle=True):
     return ndis
 
 
-def same_result(m, r):
+def coarse(cls):
+    """What the tie compares for a refusal: refused by the checker's own means
+    (CheckProofException, or one of its assertions -- SPINE: "fails with its own error") or by
+    something else escaping (an exception of the rule layer, a TypeError/IndexError ...).  Which
+    check fired and in which words is a histogram entry only, so rewording a message or reordering
+    independent checks is not a disagreement."""
+    if cls is None:
+        return "none"
+    return "own" if cls.startswith("check:") or cls == "assertion" else "other"
+
+
+def walked(items, pre=()):
+    """Positions the checker walks in a proof that is accepted: top level and inside `subproof` blocks."""
+    out = set()
+    for k, it in enumerate(items):
+        out.add(pre + (k,))
+        if it[1] == "subproof" and it[5] is not None:
+            out |= walked(it[5], pre + (k,))
+    return out
+
+
+def same_result(m, r, case=None):
     if m[0] != r[0]:
         return False
     if m[0] == "err":
-        return m[1] == r[1]
+        return coarse(m[1]) == coarse(r[1])
     if m[0] != "ok":
         return False
     canon = lambda s: None if s is None else (tuple(sorted(set(s[0]))), s[1])
-    return (canon(m[1]) == canon(r[1]) and [(p, canon(t)) for p, t in m[2]] == [(p, canon(t)) for p, t in r[2]]
+    w = walked(case["items"]) if case is not None else None
+    mt = [(p, canon(t)) for p, t in m[2] if w is None or p in w]
+    return (canon(m[1]) == canon(r[1]) and mt == [(p, canon(t)) for p, t in r[2]]
             and [canon(g) for g in m[3]] == [canon(g) for g in r[3]]
             and sorted((n, canon(t)) for n, t in m[4]) == sorted((n, canon(t)) for n, t in r[4]))
 
@@ -1359,7 +1588,7 @@ def stream_extend(ctx, env, cases, label):
         judge_extend(ctx, env, case, res)
         if out is not None:
             m = parse_extend(out[idx])
-            ok = (m[0] != "bad-op" and canon(m[0]) == canon(res[0]) and m[2] == res[2]
+            ok = (m[0] != "bad-op" and canon(m[0]) == canon(res[0]) and coarse(m[2]) == coarse(res[2])
                   and (res[1] is None or canon(m[1]) == canon(res[1])))
             if not ok:
                 ndis += 1
@@ -1497,9 +1726,13 @@ def stream_real(ctx, env):
                 if th is not None and not (comp.prop == th.prop and set(comp.hyps) <= set(th.hyps)):
                     return "stated-stronger-than-computed"
                 verified[pos] = th if th is not None else comp
+                if len(pos) == 1:
+                    lastcomp[0] = comp
             return None
+        lastcomp = [None]
         r = block(items, ())
-        return r, verified.get((len(items) - 1,))
+        last = verified.get((len(items) - 1,))
+        return r, [x for x in (last, lastcomp[0] if last is not None else None) if x is not None]
 
     def gen():
         n = rng.randint(1, 7)
@@ -1539,6 +1772,31 @@ def stream_real(ctx, env):
         ("fwd", [[[0], "substitution", Inst(), [[1]], Thm(false), None], [[1], "substitution", Inst(), [[0]], Thm(false), None]]),
     ]
     cases = [(n, its) for n, its in fixed]
+    shared_cases = []
+    for order in (0, 1):
+        X = ProofItem((2,) if order == 0 else (0,), "substitution", args=Inst(), prevs=[(0,)] if order == 0 else [(1,)])
+        blk = ProofItem((0,) if order == 0 else (1,), "subproof", th=Thm(false))
+        blk.subproof = Proof()
+        blk.subproof.items = [X]
+        fil = ProofItem((1,), "substitution", args=Inst(), prevs=[(0,)])
+        prf = Proof()
+        prf.items = [blk, fil, X] if order == 0 else [X, blk]
+        shared_cases.append(("B1-shared-%d" % order, prf))
+    theory.thy = theory.EmptyTheory()
+    for name, prf in shared_cases:
+        for ng in (False, True):
+            try:
+                with time_limit(30):
+                    res = theory.check_proof(prf, no_gaps=ng)
+            except Timeout:
+                raise
+            except Exception:  # noqa
+                ctx.count("real:shared-refused")
+                continue
+            # |- false is stated by the block only; nothing derives it
+            ctx.violation("accepted:cites-enclosing-item", "check_proof accepted (real rules) a circular proof built from one ProofItem object "
+                          "sitting inside block 0 and at top level: %s, returned %s" % (str(prf).replace("\n", "; "), res),
+                          {"kind": "real", "name": name, "no_gaps": ng, "proof": str(prf), "reason": "cites-enclosing-item"})
     for i in range(ctx.scale(1500, 20000)):
         its = gen()
         if rng.random() < 0.7:
@@ -1571,7 +1829,7 @@ def stream_real(ctx, env):
             if not acc:
                 continue
             why, final = replay_ok(items, ng)
-            if why is None and res is not None and (final is None or not (final.prop == res.prop and set(final.hyps) == set(res.hyps))):
+            if why is None and res is not None and not any(x.prop == res.prop and set(x.hyps) <= set(res.hyps) for x in final):
                 why = "result-not-verified"
             if why:
                 ctx.violation("accepted:" + why, "check_proof accepted (real rules) a proof that is not justified (%s): %s" % (why, str(prf).replace("\n", "; ")),
@@ -1601,7 +1859,7 @@ def run(ctx):
     ctx.coverage["rule"] = (
         "proof objects over a toy rule set (verif_ax/id/weaken/cut/join level 0, verif_exp level 1 and verif_exp2 level 2 whose "
         "expansion is given literally in the argument, plus assume/implies_elim/theorem/sorry/subproof/empty lines): "
-        "(a) every flat proof of <=3 items with <=2 citations each from {-1,0,1,2,0.0} x 4 id assignments x 3 statement patterns "
+        "(a) every flat proof of <=3 items with <=2 citations each from {-1,0,1,2,0.0,()} x 4 id assignments x 3 statement patterns "
         "(thorough: all; quick: a random sample), (b) every [a, block, b] with a subproof or an expansion of two items and <=1 citation "
         "per item from 10 candidates, every [block, block, b] with citations into the closed first block, one placeholder at each of 10 kinds "
         "of place x no_gaps x compute_only x level, (c) chains of <=3 items x 6 ways a statement relates to what the rule yields x 5 configurations, "
@@ -1626,7 +1884,7 @@ def run(ctx):
         "Python->Lean translator for ItemID / Thm.can_prove (in harness/props/c02.py) and the Python primitives of Holpy/C02/Py.lean",
         "the rule layer is a parameter of the model: real primitive rules and real macros are not modelled here (C01, C04)"]
     ctx.assumptions += [
-        "proof objects are trees (no ProofItem object shared between two places)",
+        "a proof object whose parts are shared between places reaches the model as its unfolding (argued in Model.lean, tested by the shared-* streams)",
         "Python's recursion limit is modelled by fuel; theorems hold for every fuel",
         "compute_only=True trusts stated sequents by design: theorems and oracle are for compute_only=False, the mode is covered by correspondence only"]
     try:
@@ -1641,9 +1899,11 @@ def run(ctx):
             stream_extend(ctx, env, corp["extend"], "corpus-extend")
         # (a) exhaustive citations
         if ctx.tier == "thorough":
-            for b in batches(gen_exh_citations(), 40000):
+            # ids = positions with the three statement patterns, the three wrong id assignments with
+            # all lines stated (there a wrong acceptance is possible at all)
+            for b in batches(itertools.chain(gen_exh_citations(idvars=(0,)), gen_exh_citations(idvars=(1, 2, 3), statedvars=(0,))), 40000):
                 stream_check(ctx, env, b, "exh-cite")
-            ctx.coverage["exhaustive_subspace"] = "all flat proofs of <=3 verif_join items, <=2 citations each from {-1,0,1,2,0.0}, 4 id assignments, 3 statement patterns"
+            ctx.coverage["exhaustive_subspace"] = "all flat proofs of <=3 verif_join items, <=2 citations each from {-1,0,1,2,0.0,()}; ids = positions x 3 statement patterns, 3 wrong id assignments with every line stated"
         else:
             rng = ctx.rng("exh-sample")
             sample = list(gen_exh_citations(idvars=(0,), statedvars=(0,), sizes=(1, 2)))
@@ -1654,18 +1914,23 @@ def run(ctx):
                                         rng.randrange(4), rng.randrange(3)))
             stream_check(ctx, env, sample, "exh-cite")
         # (b) nesting, (c) statements
-        stream_check(ctx, env, list(gen_exh_nesting()), "exh-nest")
+        nest = list(gen_exh_nesting())
+        if ctx.tier == "quick":
+            nest = ctx.rng("nest").sample(nest, 5000)
+        stream_check(ctx, env, nest, "exh-nest")
         stream_check(ctx, env, list(gen_exh_two_blocks()), "exh-blocks")
         stream_check(ctx, env, list(gen_exh_gaps()), "exh-gaps")
+        stream_check(ctx, env, list(gen_shared_directed()), "shared-directed")
+        stream_check(ctx, env, gen_shared_random(ctx.rng("shared"), ctx.scale(1500, 30000)), "shared-random")
         st = list(gen_exh_stated())
         if ctx.tier == "quick":
-            st = ctx.rng("stated").sample(st, min(len(st), 5000))
+            st = ctx.rng("stated").sample(st, min(len(st), 4000))
         for b in batches(iter(st), 40000):
             stream_check(ctx, env, b, "exh-stated")
         # (d) random
         g = RandGen(ctx.rng("random"))
         cases = []
-        for i in range(ctx.scale(5000, 120000)):
+        for i in range(ctx.scale(4000, 120000)):
             c, tags = g.case()
             cases.append(c)
             for t in tags:
@@ -1729,17 +1994,24 @@ MANIFEST = {
             "citable, every item reached through subproof blocks and the result have a derivation built in check order), no_gaps_exact / "
             "no_gaps_justified (no placeholder at any depth incl. expansions), gaps_reported_exact, stated_not_stronger, "
             "extend_admits_only_proved, and ItemID facts (can_depend_on irreflexive, transitive, precedes in document order, resolves only to "
-            "visible positions) proved about definitions translated from kernel/proof.py and kernel/thm.py on every run. Model tied to "
-            "kernel/theory.py and kernel/proof.py (with fixes C02-1..4) by differential runs on generated proof objects over a toy rule set "
-            "(exhaustive small shapes + random, ids != positions, negative ids, forward/self/closed-block citations, nested placeholders); "
-            "every proof the real checker accepts (toy rules and real primitive rules) is judged by an independent reference checker.",
+            "visible positions) proved about definitions translated from kernel/proof.py and kernel/thm.py on every run. The model passes the "
+            "walked position path like the code (fix C02-5) and is tied to kernel/theory.py and kernel/proof.py by differential runs on "
+            "generated proof objects over a toy rule set (exhaustive small shapes + random; ids != positions, negative and empty ids, "
+            "forward/self/closed-block citations, nested placeholders, ProofItem/Proof objects shared between places, cyclic objects, "
+            "verbatim twins); the tie compares accept/refuse, the kind of refusal (own exception vs. escaping error) and every output of an "
+            "accepted run, never message texts. Every proof the real checker accepts (toy rules and real primitive rules) is judged by an "
+            "independent reference checker.",
     "note": "Trusted: Lean kernel, propext/Classical.choice/Quot.sound, the harness (generators, toy rule set implemented on both sides, "
-            "reference checker, translator). The rule layer is abstract: real primitive rules and macro bodies are C01/C04; the `variable` "
-            "rule is modelled but not exercised. compute_only=True is covered by correspondence only (it trusts statements by design). "
-            "Proof objects are assumed to be trees (no shared ProofItem). ProofReport step counters and Proof.get_sorrys are not modelled.",
+            "reference checker, translator). The rule layer is abstract: real primitive rules and macro bodies are C01/C04. A proof object "
+            "with shared parts reaches the model as its unfolding; that both runs agree is argued in Model.lean and tested, not proved. "
+            "compute_only=True is covered by correspondence only (it trusts statements by design). ProofReport step counters and "
+            "Proof.get_sorrys are not modelled.",
     "design_ref": "DESIGN.md 4/C02",
 }
 FINDINGS = [
+    {"status": "fixed", "key": "accepted:cites-enclosing-item", "commit": "fixes/C02-5.patch",
+     "what": "check_proof(no_gaps=True) returned |- false for a proof in which ONE ProofItem object (id 2, citing 0) sits inside the "
+             "stated block 0 and again at top level: the id guard looked the item up by its id instead of comparing it with the walked position"},
     {"status": "fixed", "key": "accepted:cites-negative-index", "commit": "2a8cdfa",
      "what": "check_proof accepted `0: |- false by substitution {} from -1`: Proof.find_item used Python's negative indexing, so the line cited itself"},
     {"status": "fixed", "key": "accepted:cites-itself", "commit": "21a8a10",
